@@ -487,7 +487,8 @@ fn gen_cfg(rng: &mut Rng, idx: usize, only_flavour: Option<Flavour>, only_policy
     };
     let limit = if shape == 0 || shape == 2 { Some(1 + rng.below(4) as usize) } else { None };
     let max_mem = if shape == 1 || shape == 2 { Some([60usize, 90, 120, 150, 240][rng.below(5) as usize]) } else { None };
-    let ttl = if rng.chance(1, 2) { Some(1 + rng.below(3)) } else { None };
+    // ttl = 0 is a valid attribute value (every entry is expired at once; the TLRU age factor divides by it): one in eight
+    let ttl = if rng.chance(1, 2) { Some(if rng.chance(1, 8) { 0 } else { 1 + rng.below(3) }) } else { None };
     let fw = if policy == "tlru" { *rng.pick(&FWS) } else { None };
     Cfg { flavour, policy, limit, max_mem, ttl, fw }
 }
@@ -556,7 +557,7 @@ fn gen_ops(rng: &mut Rng, cfg: &Cfg, n: usize, next_id: &mut u32, crowd: bool) -
                 1000 * (1 + rng.below(3))
             } else {
                 match cfg.ttl {
-                    Some(t) if rng.chance(1, 2) => {
+                    Some(t) if t > 0 && rng.chance(1, 2) => {
                         // around the boundary: T-0.1s, T, T+0.1s, T-1s, T+1s
                         let b = t * 1000;
                         *rng.pick(&[b - 100, b, b + 100, b - 1000 + 100, b + 1000, 900, 100])
